@@ -278,6 +278,37 @@ class C04(PropBase):
     def scenario(self, rng, tier):
         return adversarial_sender(rng, tier)
 
+    def enumerate(self, tier):
+        """ALL Flow Control / time histories up to a bounded length over a small alphabet (DESIGN section 6, C04 tie)"""
+        import itertools
+        depth = 3 if tier == 'quick' else 5
+        a = {'mode': 0, 'txid': 0x321, 'rxid': 0x654}
+        T = 10000000    # N_Bs = 10 ms
+
+        def fc(status, bs=0, st=0):
+            return {'op': 'frame', 'i': 0, 'id': 0x654, 'ext': False, 'data': bytes([0x30 | status, bs, st])}
+        moves = {
+            'cts0': [fc(0, 0, 0)], 'cts1': [fc(0, 1, 0)], 'cts2': [fc(0, 2, 0)], 'ctsS': [fc(0, 0, 1)],
+            'wait': [fc(1)], 'ovf': [fc(2)],
+            'tick1': [{'op': 'tick', 'dt': 1100000}], 'tickT': [{'op': 'tick', 'dt': T + 1000}], 'proc': [],
+        }
+        names = sorted(moves)
+        payload = bytes(range(1, 6 + 7 * 4 - 1))       # First Frame + 4 Consecutive Frames
+        for wft in (0, 2):
+            for n in range(1, depth + 1):
+                for seq in itertools.product(names, repeat=n):
+                    ops = [{'op': 'layer', 'i': 0, 'addr': a, 'params': {'wftmax': wft, 'rx_flowcontrol_timeout': 10}, 'watch_tx': True},
+                           {'op': 'send', 'i': 0, 'id': 1, 'data': payload},
+                           {'op': 'send', 'i': 0, 'id': 2, 'data': b'\x01\x02\x03'},
+                           {'op': 'process', 'i': 0}]
+                    for m in seq:
+                        ops.extend(dict(o) for o in moves[m])
+                        ops.append({'op': 'process', 'i': 0})
+                    for _ in range(8):
+                        ops.append({'op': 'tick', 'dt': T + 1000, 'keep': True})
+                        ops.append({'op': 'process', 'i': 0, 'keep': True})
+                    yield {'ops': ops}
+
     def project(self, op_line, out_line):
         return trace.project_events(out_line, keep=('tx', 'err', 'done'), status_keys=('tr', 'th'))
 
